@@ -574,6 +574,11 @@ def case_strategy(draw, dbs=("phreeqc.dat",)):
     if want_surf:
         case["surf"] = draw(surf(db, case.get("pp"), case["kin"]["rate"] if "kin" in case else None, sol["balance"] != "none",
                                  {base(e) for e, _ in sol["comps"]}))
+    if not case["incr"] and any(case.get(k, {}).get("kind") in ("phase", "kin") for k in ("exch", "surf")):
+        # excluded by construction (known finding `tied-sites-not-resynchronised`): every cumulative (non-incremental) step
+        # after the first restarts from the stored minerals but keeps the site count the previous step ended with
+        case["incr"] = True
+        case["incr_forced"] = True
     if draw(st.integers(0, 4)) == 0:
         case["temps"] = [draw(cg.uni(0.0, 100.0, 3)) for _ in range(draw(st.integers(1, 4)))]
     if draw(st.integers(0, 9)) < 4:
